@@ -5,7 +5,7 @@ P=$1; shift
 cd /repo && git apply "$P" || { echo "patch does not apply"; exit 2; }
 cd /verif
 SAVE=$(mktemp -d /tmp/evsave.XXXXXX); cp evidence/*.json $SAVE/ 2>/dev/null
-for c in "$@"; do echo "== $c"; bin/check $c 2>&1 | grep -v "^  " | tail -4; done
+for c in "$@"; do echo "== $c"; bin/check $c 2>&1 | grep -E "^(VIOLATION|OK |KNOWN-FINDING|BROKEN|ERROR)" | cut -c1-300; done
 cp $SAVE/*.json evidence/ 2>/dev/null; rm -rf $SAVE
 git -C /repo checkout -- . && git -C /repo clean -fdq
 git -C /repo status --short | head -3
